@@ -25,7 +25,7 @@ ASSUMPTIONS = [
     "a sum that would add the `one` sentinel to another term raises TypeError by documented design of the sentinel; factors carrying `one` are therefore generated like the library's own U (identity at order zero, no other zeroth-order element); such TypeErrors would be counted, not judged",
     "float comparison |err| <= 1e-10 x sum of |terms|",
 ]
-BUDGET = {"quick": dict(cases=2500, seconds=60), "thorough": dict(cases=40000, seconds=480)}
+BUDGET = {"quick": dict(cases=2500, seconds=300), "thorough": dict(cases=40000, seconds=480)}
 CASE_TIMEOUT = 60
 MONITORS = {"product": True, "solvers": False}
 MONITOR_VERDICTS = ("pending", "product")
